@@ -231,6 +231,14 @@ pub fn c05_bfs_shortest_path_n3() {
     bfs_shortest_path::<3>();
 }
 
+// BfsPred::cycles over every digraph on 2 vertices, every single source (order 3 is an experiment: out of memory).
+// @verif prop=C05 tier=exp fl=f2 role=bfs-cycles/array t=1200 mem=14
+#[cfg_attr(kani, kani::proof)]
+#[cfg_attr(kani, kani::unwind(6))]
+pub fn c05_bfs_cycles_n2() {
+    bfs_cycles::<2>();
+}
+
 // BfsPred::cycles over every digraph on 3 vertices, every single source.
 // @verif prop=C05 tier=exp fl=f2 role=bfs-cycles/array t=3600 mem=30
 #[cfg_attr(kani, kani::proof)]
